@@ -910,7 +910,19 @@ func (circuitSuite) Gen(r *rand.Rand, i int) Case {
 			to = 1_000_000_000
 		}
 	}
+	sharedCfgProbe := false
+	if direct && r.Intn(2) == 0 {
+		// a second circuit is built from the SAME Config value afterwards: the first circuit's logic objects must still be
+		// the ones that hear about ITS transitions — a closer that starts its sleep window on `Opened` shows it at once
+		hdr = regexp.MustCompile(" closer=[a-z]+").ReplaceAllString(hdr, " closer=hystrix")
+		closer = "hystrix"
+		sharedCfgProbe = true
+	}
 	c := Case{Header: hdr}
+	if sharedCfgProbe {
+		// directed prelude: the circuit is opened, the very next call must be shed (the window has just begun)
+		c.Ops = append(c.Ops, "open", "exec ctx=bg run=nil radv=0 rcancel=0 fb=none fadv=0 fcancel=0 ans=0000", "close")
+	}
 	tag := func(t string) { c.Tags = append(c.Tags, t) }
 	if pt != "" {
 		tag("passthru-" + pt)
